@@ -305,7 +305,10 @@ class PathEval:
                 p.stores[tt] = ast.BinOp(left=self.sub(_as_load(s.target), p), op=clone_ast(s.op), right=v)
             return [p]
         if isinstance(s, ast.Expr):
-            self.sub(s.value, p)
+            v = self.sub(s.value, p)
+            # setattr(o, "name", v) is the store o.name = v
+            if isinstance(v, ast.Call) and isinstance(v.func, ast.Name) and v.func.id == "setattr" and len(v.args) == 3 and isinstance(v.args[1], ast.Constant) and isinstance(v.args[1].value, str) and v.args[1].value.isidentifier():
+                p.stores[text(ast.Attribute(value=v.args[0], attr=v.args[1].value, ctx=ast.Load()))] = v.args[2]
             return [p]
         if isinstance(s, ast.Assert):
             t = self.sub(s.test, p)
@@ -319,6 +322,25 @@ class PathEval:
             if f is None:
                 p.conds = p.conds + tuple(sorted(atoms(t, True)))
             return [p]
+        if isinstance(s, ast.For):
+            items = self._literal_items(self.sub(s.iter, p.fork()), s.target)
+            if items is not None and len(items) <= 8:
+                # a loop over a literal container is unrolled
+                states = [p]
+                for it in items:
+                    nxt = []
+                    for q in states:
+                        self.assign(s.target, it, q)
+                        n_done = len(self.done)
+                        res = self.block(s.body, [q])
+                        ended = [e for e in self.done[n_done:] if e.ret == CONTINUE]
+                        self.done = self.done[:n_done] + [e for e in self.done[n_done:] if e.ret != CONTINUE]
+                        for e in ended:
+                            e.ret = None
+                            e.end = None
+                        nxt.extend(res + ended)
+                    states = nxt
+                return self.block(s.orelse, states) if s.orelse else states
         if isinstance(s, (ast.For, ast.While)):
             bound = set()
             for x in ast.walk(s):
@@ -373,6 +395,22 @@ class PathEval:
             self.done.append(p)
             return []
         return [p]  # pass, import, global
+
+    def _literal_items(self, it, target):
+        """elements of a literal list/tuple/dict (.items(), .keys(), .values()) or None"""
+        if isinstance(it, (ast.List, ast.Tuple)):
+            return list(it.elts)
+        if isinstance(it, ast.Dict) and all(k is not None for k in it.keys):
+            return list(it.keys)
+        if isinstance(it, ast.Call) and isinstance(it.func, ast.Attribute) and isinstance(it.func.value, ast.Dict) and not it.args and all(k is not None for k in it.func.value.keys):
+            d = it.func.value
+            if it.func.attr == "items":
+                return [ast.Tuple(elts=[k, v], ctx=ast.Load()) for k, v in zip(d.keys, d.values)]
+            if it.func.attr == "keys":
+                return list(d.keys)
+            if it.func.attr == "values":
+                return list(d.values)
+        return None
 
     def assign(self, t, v, p: Path):
         if isinstance(t, ast.Name):
